@@ -2595,7 +2595,11 @@ func readerReleaseRule(p *Prog, r *Report, prop string) {
 		r.Check("R7", "serve loop: the connection reader is released between requests only when it buffers nothing (or the connection ends with an error)", emptyT.bad == 0, p.Pos(emptyT.pos),
 			fmt.Sprintf("%d of %d explored arrivals at releaseReader have neither found br.Buffered() == 0 nor an error: bytes of the next pipelined request that were read ahead are dropped with the reader, and the next read resumes in the middle of a message - body bytes are parsed as a request line", emptyT.bad, emptyT.n), emptyT.wit...)
 	} else {
-		r.Check("R5", "serve loop: the connection reader is released between requests only when request bodies are not streamed (or the connection ends with an error)", streamT.bad == 0, p.Pos(streamT.pos),
+		rule := "R5"
+		if prop != "C02" {
+			rule = "R-reader"
+		}
+		r.Check(rule, "serve loop: the connection reader is released between requests only when request bodies are not streamed (or the connection ends with an error)", streamT.bad == 0, p.Pos(streamT.pos),
 			fmt.Sprintf("%d of %d explored arrivals at releaseReader have not found StreamRequestBody false: the body stream handed to the handler still reads through the released reader, over-reads into the next request, and those bytes are lost when the loop takes a fresh reader", streamT.bad, streamT.n), streamT.wit...)
 	}
 }
